@@ -60,6 +60,7 @@ def handle (T : Table) (u : Unit) (op : String) (args : List Json) : Unit × Jso
     (u, match dec T (jbool s) (kindOfJson k) (wireOfJson w) with
         | .ok v => Json.arr #["ok", jsonOfVal v]
         | .error e => errJson e)
+  | "stripw", [k, w] => (u, jsonOfWire (stripW T (kindOfJson k) (wireOfJson w)))
   | "strip", [v] => (u, jsonOfVal (strip T true (valOfJson v)))
   | "wf", [] => (u, Json.arr #[wfTableB T,
       Json.arr (T.flatMap (fun ct => (ct.rows.filter (fun r => !wfRowB r)).map (fun r => Json.arr #[ct.cls, r.member]))).toArray])
